@@ -148,8 +148,9 @@ def rule_r1(repo, tier):
             if not p or p[1] != n or not uint_kind_ok(p[0], n) or repr(r.value) != 'raw0':
                 rr.fail('%s.read_uint' % R, fi.where, 'read_uint(%d) reads %s and returns %r (expected one unsigned big-endian field of %d bits)' % (n, rd, r.value, n),
                         witness={'nbits': n})
-        for v in sorted(set([0, 1, 2 ** (n - 1), 2 ** n - 2, 2 ** n - 1])):
-            if v < 0:
+        # (2**n and -1 do not fit: they must reach bitstring unchanged, which refuses them)
+        for v in sorted(set([0, 1, 2 ** (n - 1), 2 ** n - 2, 2 ** n - 1, 2 ** n, -1])):
+            if v < -1:
                 continue
             fi, res = call(repo, W, 'write_uint', [v, n])
             r, err = single(res, fi, 'write_uint(%d, %d)' % (v, n))
@@ -266,7 +267,26 @@ def rule_r1(repo, tier):
         if br != nb or bw != nb:
             rr.fail('dispatch:%s' % t, fi.where, 'type %s with nbits=%d: the reader consumes %s bits (%s), the writer produces %s bits (%s)' % (
                 t, nb, br, [e[1] for e in r.events if e[0] == 'read'], bw, wr))
-    rr.require_floor(66)
+    # a bytes value shorter / longer than the field: the dispatcher must hand the field width on, so that the value is padded / cut
+    for val, nb in ((b'AB', 32), (b'ABCDEF', 32), (b'', 16)):
+        fi2, res2 = call(repo, W, 'write', [val, 'bytes', nb])
+        r2, err2 = single(res2, fi2, 'write(%r, bytes, %d)' % (val, nb))
+        rr.instance('generic write of %r into a bytes field of %d bits' % (val, nb))
+        if err2:
+            rr.fail('dispatch:bytes:width', fi2.where, err2)
+            continue
+        wr = [e[1] for e in r2.events if e[0] == 'write']
+        tot = 0
+        for w in wr:
+            if isinstance(w, Obj) and w.cls == 'Bits' and isinstance(w.fields.get('bytes'), bytes):
+                tot += 8 * len(w.fields['bytes'])
+            else:
+                tot = None
+                break
+        if tot != nb:
+            rr.fail('dispatch:bytes:width', fi2.where, 'write(%r, \'bytes\', %d) appends %s bits (%s): the field width is not handed to write_bytes, so the value '
+                    'is neither padded nor cut to the field' % (val, nb, tot, wr), witness={'value': repr(val), 'nbits': nb})
+    rr.require_floor(69)
     return rr
 
 
@@ -274,8 +294,8 @@ def rule_r2(repo):
     rr = RuleResult('C19.R2', 'set_uint replaces exactly nbits bits at the given position, widths 1..64')
     W = 'BitStringBitWriter'
     for n in range(1, 65):
-        for pos in (0, 3, 32):
-            v = 2 ** n - 2 if n > 1 else 1
+        # (the last two values do not fit: they must reach bitstring unchanged, which refuses them -- never masked or clipped)
+        for pos, v in ((0, 2 ** n - 2 if n > 1 else 1), (3, 2 ** n - 1), (32, 0), (8, 2 ** n), (5, 2 ** n + 5)):
             fi, res = call(repo, W, 'set_uint', [v, n, pos])
             r, err = single(res, fi, 'set_uint(%d, %d, %d)' % (v, n, pos))
             if err:
